@@ -1421,7 +1421,13 @@ impl PhysicalPlanner {
                             pschema
                                 .fields()
                                 .iter()
-                                .position(|f| f.name().eq_ignore_ascii_case(&c.name))
+                                // The published payload holds i64 keys and the
+                                // scan predicate reads the column as Int64: a
+                                // probe column of any other type gets no filter.
+                                .position(|f| {
+                                    f.name().eq_ignore_ascii_case(&c.name)
+                                        && f.data_type() == &arrow::datatypes::DataType::Int64
+                                })
                                 .filter(|_| std::env::var("RT_DISABLE").is_err())
                                 .map(|idx| {
                                     let slot: crate::physical::operators::SharedRuntimeFilter =
